@@ -322,6 +322,7 @@ def check(run: Run):
     # ---- C. memory-less length
     ncases, nmeta = [], []
     fr_grid = [j / 100 for j in range(0, 101, 5 if not thorough else 1)]
+    fr_grid += [0.125, 0.625, 0.875, 1 / 3, 0.999, 0.0625, 0.3125, 2 / 3, 0.9995]      # fractions that are not whole percents
     n_grid = list(range(1, 60 if not thorough else 400, 1 if not thorough else 3))
     off_by_rounding = 0
     for n_iter in n_grid:
